@@ -392,28 +392,32 @@ carquet_status_t carquet_batch_reader_next(
             (void)local_err;
         }
 
-        /* Check if we got a zero-copy view and can use it directly */
+        /* Check if we got a zero-copy view and can use it directly.
+         * Every column of a batch must deliver exactly rows_to_read rows, so the
+         * view is taken only when the unread part of the loaded page holds that
+         * many values; it then covers exactly those values. */
         bool use_zero_copy = col_reader->page_loaded &&
                              col_reader->decoded_ownership == CARQUET_DATA_VIEW &&
-                             col_reader->page_values_read == 0 &&
-                             col_reader->page_num_values <= (int32_t)rows_to_read &&
+                             (int64_t)(col_reader->page_num_values -
+                                       col_reader->page_values_read) >= rows_to_read &&
                              max_def == 0;
 
         if (use_zero_copy) {
             /* ====== ZERO-COPY PATH ====== */
             /* Point directly to mmap data - no allocation or copy! */
-            col_data->data = col_reader->decoded_values;
+            col_data->data = col_reader->decoded_values +
+                             (size_t)col_reader->page_values_read * value_size;
             col_data->data_capacity = 0;  /* Not our allocation */
             col_data->ownership = CARQUET_DATA_VIEW;
-            col_data->num_values = col_reader->page_num_values;
+            col_data->num_values = rows_to_read;
 
             /* No nulls in REQUIRED columns */
             size_t bitmap_size = ((size_t)col_data->num_values + 7) / 8;
             col_data->null_bitmap = calloc(1, bitmap_size);  /* All zeros = no nulls */
 
-            /* Mark page as consumed */
-            col_reader->page_values_read = col_reader->page_num_values;
-            col_reader->values_remaining -= col_reader->page_num_values;
+            /* Mark the viewed values as consumed */
+            col_reader->page_values_read += (int32_t)rows_to_read;
+            col_reader->values_remaining -= rows_to_read;
         } else {
             /* ====== STANDARD PATH (with copy) ====== */
 
